@@ -1,6 +1,8 @@
 (* C05 - the data-dependent partial operations on the validation paths, written out.
-   A Rust operation that can panic is option-valued here ([None] = panic); a cast that can
-   lose information is written as the arithmetic it performs.  No proofs in this file. *)
+   A checked Rust operation (checked_mul, checked_add, i64::try_from) is option-valued here; since
+   commits fe9328d / 9c012db the code turns [None] into a validation error (before, the unchecked
+   operation panicked in builds with overflow checks and wrapped otherwise).  A cast that can lose
+   information is written as the arithmetic it performs.  No proofs in this file. *)
 From Cddl Require Import Base.Bytes.
 Open Scope Z_scope.
 
@@ -9,16 +11,15 @@ Definition in_u64 (z : Z) : bool := (0 <=? z) && (z <? 2 ^ 64).
 (* ciborium::value::Integer: -2^64 .. 2^64-1 *)
 Definition in_cbor_int (z : Z) : bool := (-(2 ^ 64) <=? z) && (z <? 2 ^ 64).
 
-(* json.rs:2766  `Utc.timestamp_millis_opt(n * 1000)` with n : i64 from serde_json's as_i64.
-   Debug builds (overflow-checks) panic on overflow; release builds wrap. *)
+(* json.rs  `n.checked_mul(1000).is_some_and(|ms| Utc.timestamp_millis_opt(ms) is not None)` for prelude
+   type `time`, n : i64 from serde_json's as_i64: [None] = "invalid UNIX timestamp" *)
 Definition mul1000_checked (n : Z) : option Z :=
   let r := n * 1000 in if in_i64 r then Some r else None.
 Definition wrap_i64 (z : Z) : Z := (z + 2 ^ 63) mod 2 ^ 64 - 2 ^ 63.
-Definition mul1000_wrapping (n : Z) : Z := wrap_i64 (n * 1000).
-(* the class of inputs on which the debug build panics *)
+(* the class of inputs rejected because the multiplication leaves i64 *)
 Definition mul1000_overflows (n : Z) : bool := (n <? -9223372036854775) || (9223372036854775 <? n).
 
-(* cbor.rs:3905  `Utc.timestamp_opt(value.try_into().unwrap(), 0)` with value : ciborium Integer *)
+(* cbor.rs  `i64::try_from(value).is_ok_and(..)` for tag 1 under `time`, value : ciborium Integer *)
 Definition try_into_i64 (z : Z) : option Z := if in_i64 z then Some z else None.
 
 (* json.rs:3226 / cbor.rs  `256u128.checked_pow( *v as u32 )` with v : usize (the .size argument) *)
@@ -32,9 +33,10 @@ Definition size_uint_accepts (v i : Z) : bool :=
   | None => false
   end.
 
-(* control.rs:603 / :605 / :649 / :652  plus_operation: `value + controller` on usize, and
-   `*value as isize + controller` / `value + *controller as isize` on isize.  A literal >= 0 is a
-   UintValue (usize), a negative one an IntValue (isize).  Debug builds panic on overflow. *)
+(* control.rs plus_operation: `value.checked_add(controller)` on usize, and
+   `(value as isize).checked_add(controller)` / `value.checked_add(controller as isize)` on isize.
+   A literal >= 0 is a UintValue (usize), a negative one an IntValue (isize).
+   [None] = Err("integer overflow in .plus operation"). *)
 Definition plus_checked (a b : Z) : option Z :=
   if (0 <=? a) && (0 <=? b) then (let r := a + b in if in_u64 r then Some r else None)
   else let a' := if 0 <=? a then wrap_i64 a else a in
@@ -43,7 +45,7 @@ Definition plus_checked (a b : Z) : option Z :=
 
 (* ---------- rendering for the oracle / vm_compute slice ---------- *)
 (* op 0: n * 1000 (checked)   op 1: try_into::<i64>   op 2: `uint .size a` on b   op 3: a .plus b
-   answers: P = panics, R = returns, A = accepts, J = rejects *)
+   answers: P = the checked operation is None (validation error), R = it has a value, A = accepts, J = rejects *)
 Definition arith_report (op : N) (a b : Z) : list N :=
   if (op =? 0)%N then match mul1000_checked a with None => [80%N] | Some _ => [82%N] end
   else if (op =? 1)%N then match try_into_i64 a with None => [80%N] | Some _ => [82%N] end
